@@ -43,7 +43,7 @@ void generate_math_utility_builtins(StringBuilder *sb) {
     sb_append(sb, "static double nl_round(double x) { return round(x); }\n\n");
 
     /* Type casting functions */
-    sb_append(sb, "static int64_t nl_cast_int(double x) { return (int64_t)x; }\n");
+    sb_append(sb, "static int64_t nl_cast_int(double x) { return (x >= -9223372036854775808.0 && x < 9223372036854775808.0) ? (int64_t)x : INT64_MIN; }\n");
     sb_append(sb, "static int64_t nl_cast_int_from_int(int64_t x) { return x; }\n");
     sb_append(sb, "static double nl_cast_float(int64_t x) { return (double)x; }\n");
     sb_append(sb, "static double nl_cast_float_from_float(double x) { return x; }\n");
